@@ -7,7 +7,7 @@ from harness.lib import catalog, libcheck
 def run(prop, tier, seed, only=None):
     names = sorted(catalog.catalog(tier))
     if only:
-        names = [n for n in names if n in only]
+        names = [n for n in names if n in only or n.split(".")[0] in only]
     d = libcheck.trace_dir(prop)
     jobs = [(n, ["-m", "harness.lib.wrap_drive", n, tier, str(seed), "c13"], os.path.join(d, f"wrap-c13-{n}-{tier}-{seed}.ndjson"))
             for n in names]
